@@ -57,11 +57,44 @@ def gen_case(rng, tier):
         max_n = rng.choice((70, 100, 128, 140) if tier == "quick" else (70, 100, 130, 160, 220))
         big = True
     G, H, iso = mg.gen_pair(rng, max_n)
+    wide = rng.random() < 0.004          # cheap (diameter 2..8) but beyond 127 equal distances per row
+    if wide:
+        max_n = rng.choice((129, 150, 200, 260))
+        big = True
+    if wide or (max_n > 30 and rng.random() < 0.6):
+        # many vertices at one distance (stars, brooms, double stars), against a small or a large partner
+        n = rng.randint(max(30, max_n - 40), max_n) if not wide else max_n
+        kind = rng.choice(("star", "broom", "double-star"))
+        if kind == "star":
+            e = [[0, i] for i in range(1, n)]
+        elif kind == "broom":
+            h = rng.randint(2, 6)
+            e = [[i, i + 1] for i in range(h)] + [[h, i] for i in range(h + 1, n)]
+        else:
+            m = n // 2
+            e = [[0, 1]] + [[0, i] for i in range(2, m)] + [[1, i] for i in range(m, n)]
+        G = {"n": n, "edges": e}
+        if rng.random() < 0.6:
+            if rng.random() < 0.5:          # a spider: three or four legs of equal length
+                legs, ln = rng.choice((3, 4)), rng.choice((1, 2, 3))
+                e2, nv = [], 1
+                for _ in range(legs):
+                    prev = 0
+                    for _ in range(ln):
+                        e2.append([prev, nv])
+                        prev = nv
+                        nv += 1
+                H = {"n": nv, "edges": e2}
+            else:
+                H = mg.gen_graph(rng, rng.choice((5, 7, 9)))
+        iso = False
+        if rng.random() < 0.5:
+            G, H = H, G
     k = rng.randint(2, 4) if max_n <= 30 else 1
     return {
         "inputs": {"G": G, "H": H, "iso": iso, "mso": list(rng.choice(mg.MSO_CHOICES)),
-                   "repG": {"fmt": rng.choice(("csr", "dense", "list")), "fill": "upper", "dtype": "int"},
-                   "repH": {"fmt": rng.choice(("csr", "dense", "list")), "fill": "upper", "dtype": "int"}},
+                   "repG": {"fmt": rng.choice(("csr", "dense", "list")), "fill": rng.choice(mg.FILLS), "dtype": "int"},
+                   "repH": {"fmt": rng.choice(("csr", "dense", "list")), "fill": rng.choice(mg.FILLS), "dtype": "int"}},
         "config": {"evals": [{"mode": rng.choice(simrandom.MODES), "k": rng.randrange(1000)} for _ in range(k)],
                    "use_default_mso": rng.random() < 0.3, "size_free_only": big},
         "ops": [],
